@@ -49,11 +49,6 @@ def value_param(name, the_dop, byte_position=None, bit_position=None, default=No
                        dop_ref=OdxLinkRef.from_id(the_dop.odx_id), dop_snref=None,
                        physical_default_value_raw=default, byte_position=byte_position, bit_position=bit_position,
                        sdgs=[])
-    p._dop = the_dop
-    if default is not None:
-        p._physical_default_value = the_dop.physical_type.base_data_type.from_string(default)
-    else:
-        p._physical_default_value = None
     return p
 
 
@@ -64,6 +59,7 @@ def coded_const(name, value, byte_position=None, bits=8, semantic=None, dt=DataT
 
 
 # ------------------------------------------------------------------------------------------------ more builders
+from odxtools.compumethods.compudefaultvalue import CompuDefaultValue  # noqa: E402
 from odxtools.compumethods.compuinternaltophys import CompuInternalToPhys  # noqa: E402
 from odxtools.compumethods.compurationalcoeffs import CompuRationalCoeffs  # noqa: E402
 from odxtools.compumethods.compuscale import CompuScale  # noqa: E402
@@ -81,7 +77,7 @@ from odxtools.request import Request  # noqa: E402
 from odxtools.response import Response, ResponseType  # noqa: E402
 
 
-def linear(offset, factor, it=DataType.A_UINT32, pt=DataType.A_UINT32, lo=None, hi=None):
+def linear(offset, factor, it=DataType.A_UINT32, pt=DataType.A_UINT32, lo=None, hi=None, default=None):
     def lim(v):
         return None if v is None else Limit(value_raw=str(v), value_type=it, interval_type=IntervalType.CLOSED)
     scale = CompuScale(short_label=None, description=None, lower_limit=lim(lo), upper_limit=lim(hi),
@@ -90,8 +86,10 @@ def linear(offset, factor, it=DataType.A_UINT32, pt=DataType.A_UINT32, lo=None, 
                                                                  denominators=[]),
                        domain_type=it, range_type=pt)
     return LinearCompuMethod(category=CompuCategory.LINEAR,
-                             compu_internal_to_phys=CompuInternalToPhys(compu_scales=[scale], prog_code=None,
-                                                                        compu_default_value=None),
+                             compu_internal_to_phys=CompuInternalToPhys(
+                                 compu_scales=[scale], prog_code=None,
+                                 compu_default_value=None if default is None else CompuDefaultValue(
+                                     v=default, vt=None, data_type=pt, compu_inverse_value=None)),
                              compu_phys_to_internal=None, physical_type=pt, internal_type=it)
 
 
@@ -122,8 +120,6 @@ def phys_const(name, the_dop, value_raw, byte_position=None):
                                   byte_position=byte_position, bit_position=None, sdgs=[],
                                   dop_ref=OdxLinkRef.from_id(the_dop.odx_id), dop_snref=None,
                                   physical_constant_value_raw=value_raw)
-    p._dop = the_dop
-    p._physical_constant_value = the_dop.physical_type.base_data_type.from_string(value_raw)
     return p
 
 
@@ -131,7 +127,6 @@ def system_param(name, the_dop, sysparam, byte_position=None):
     p = SystemParameter(oid=None, short_name=name, long_name=None, description=None, semantic=None,
                         byte_position=byte_position, bit_position=None, sdgs=[],
                         dop_ref=OdxLinkRef.from_id(the_dop.odx_id), dop_snref=None, sysparam=sysparam)
-    p._dop = the_dop
     return p
 
 
@@ -204,8 +199,6 @@ def end_of_pdu_field(name, struct, min_items=None, max_items=None):
                       description=None, admin_data=None, sdgs=[], structure_ref=OdxLinkRef.from_id(struct.odx_id),
                       structure_snref=None, env_data_desc_ref=None, env_data_desc_snref=None, is_visible_raw=None,
                       min_number_of_items=min_items, max_number_of_items=max_items)
-    f._structure = struct
-    f._env_data_desc = None
     return note(f)
 
 
@@ -214,8 +207,6 @@ def static_field(name, struct, n_items, item_byte_size):
                     description=None, admin_data=None, sdgs=[], structure_ref=OdxLinkRef.from_id(struct.odx_id),
                     structure_snref=None, env_data_desc_ref=None, env_data_desc_snref=None, is_visible_raw=None,
                     fixed_number_of_items=n_items, item_byte_size=item_byte_size)
-    f._structure = struct
-    f._env_data_desc = None
     return note(f)
 
 
@@ -235,14 +226,11 @@ def leading_length_type(dt=DataType.A_BYTEFIELD, bits=8, enc=None, hl=None):
 def dynamic_length_field(name, struct, count_dop, offset=1, count_byte_position=0):
     det = DetermineNumberOfItems(byte_position=count_byte_position, bit_position=None,
                                  dop_ref=OdxLinkRef.from_id(count_dop.odx_id))
-    det._dop = count_dop
     f = DynamicLengthField(odx_id=OdxLinkId(f"id.{name}", FRAGS), oid=None, short_name=name, long_name=None,
                            description=None, admin_data=None, sdgs=[],
                            structure_ref=OdxLinkRef.from_id(struct.odx_id), structure_snref=None,
                            env_data_desc_ref=None, env_data_desc_snref=None, is_visible_raw=None, offset=offset,
                            determine_number_of_items=det)
-    f._structure = struct
-    f._env_data_desc = None
     return note(f)
 
 
@@ -258,8 +246,6 @@ def dtc_dop(name, dtcs, bits=16):
                physical_type=PhysicalType(base_data_type=DataType.A_UINT32, display_radix=None, precision=None),
                compu_method=identical(DataType.A_UINT32), dtcs_raw=list(dtcs), linked_dtc_dops_raw=[],
                is_visible_raw=None)
-    d._dtcs = NamedItemList(dtcs)
-    d._linked_dtc_dops = NamedItemList()
     return note(d)
 
 
@@ -273,7 +259,6 @@ def mux(name, key_dop, cases, byte_position=1, key_byte_position=0, default=None
     default: (name, structure or None) of the default case"""
     sk = MultiplexerSwitchKey(byte_position=key_byte_position, bit_position=None,
                               dop_ref=OdxLinkRef.from_id(key_dop.odx_id))
-    sk._dop = key_dop
     mcs = []
     for case in cases:
         (cname, lo, hi, st) = case[:4]
@@ -285,7 +270,6 @@ def mux(name, key_dop, cases, byte_position=1, key_byte_position=0, default=None
                                               interval_type=IntervalType[lo_kind]),
                             upper_limit=Limit(value_raw=str(hi), value_type=DataType.A_UINT32,
                                               interval_type=IntervalType[hi_kind]))
-        c._structure = st
         mcs.append(c)
     dc = None
     if default is not None:
@@ -293,7 +277,6 @@ def mux(name, key_dop, cases, byte_position=1, key_byte_position=0, default=None
         dc = MultiplexerDefaultCase(short_name=default[0], long_name=None, description=None,
                                     structure_ref=None if default[1] is None else OdxLinkRef.from_id(default[1].odx_id),
                                     structure_snref=None)
-        dc._structure = default[1]
     return note(Multiplexer(odx_id=OdxLinkId(f"id.{name}", FRAGS), oid=None, short_name=name, long_name=None,
                        description=None, admin_data=None, sdgs=[], byte_position=byte_position, switch_key=sk,
                        default_case=dc, cases=NamedItemList(mcs), is_visible_raw=None))
@@ -310,7 +293,6 @@ def table(name, key_dop, rows):
     t = Table(odx_id=OdxLinkId(f"id.{name}", FRAGS), oid=None, short_name=name, long_name=None, description=None,
               semantic=None, key_label=None, struct_label=None, admin_data=None,
               key_dop_ref=OdxLinkRef.from_id(key_dop.odx_id), table_rows_raw=[], table_diag_comm_connectors=[], sdgs=[])
-    t._key_dop = key_dop
     trs = []
     for (rname, key, st, d) in rows:
         tr = TableRow(odx_id=OdxLinkId(f"id.{name}.{rname}", FRAGS), oid=None, short_name=rname, long_name=None,
@@ -320,13 +302,8 @@ def table(name, key_dop, rows):
                       sdgs=[], audience=None, functional_class_refs=[], state_transition_refs=[],
                       pre_condition_state_refs=[], admin_data=None, is_executable_raw=None, semantic=None,
                       is_mandatory_raw=None, is_final_raw=None)
-        tr._structure = st
-        tr._dop = d
-        tr._key = key
-        tr._table = t
         trs.append(tr)
     t.table_rows_raw = list(trs)
-    t._table_rows = NamedItemList(trs)
     return note(t)
 
 
@@ -337,8 +314,6 @@ def table_key(name, tbl, byte_position=None, fixed_row=None):
                           table_snref=None,
                           table_row_ref=None if fixed_row is None else OdxLinkRef.from_id(fixed_row.odx_id),
                           table_row_snref=None)
-    p._table = tbl
-    p._table_row = fixed_row
     return p
 
 
@@ -346,7 +321,6 @@ def table_struct(name, key_param, byte_position=None):
     p = TableStructParameter(oid=None, short_name=name, long_name=None, description=None, semantic=None,
                              byte_position=byte_position, bit_position=None, sdgs=[],
                              table_key_ref=OdxLinkRef.from_id(key_param.odx_id), table_key_snref=None)
-    p._table_key = key_param
     return p
 
 
@@ -359,14 +333,12 @@ def length_key(name, the_dop, byte_position=None, bit_position=None):
                            byte_position=byte_position, bit_position=bit_position, sdgs=[],
                            odx_id=OdxLinkId(f"id.{name}", FRAGS), dop_ref=OdxLinkRef.from_id(the_dop.odx_id),
                            dop_snref=None)
-    p._dop = the_dop
     return p
 
 
 def param_length_type(key_param, dt=DataType.A_UINT32, enc=None, hl=None):
     t = ParamLengthInfoType(base_data_type=dt, base_type_encoding=enc, is_highlow_byte_order_raw=hl,
                             length_key_ref=OdxLinkRef.from_id(key_param.odx_id))
-    t._length_key = key_param
     return t
 
 
@@ -382,10 +354,6 @@ def dynamic_endmarker_field(name, struct, end_dop, termination_value_raw):
                               structure_ref=OdxLinkRef.from_id(struct.odx_id), structure_snref=None,
                               env_data_desc_ref=None, env_data_desc_snref=None, is_visible_raw=None,
                               dyn_end_dop_ref=ref)
-    f._structure = struct
-    f._env_data_desc = None
-    f._dyn_end_dop = end_dop
-    f._termination_value = end_dop.diag_coded_type.base_data_type.from_string(termination_value_raw)
     return note(f)
 
 
